@@ -1364,6 +1364,17 @@ ADVANCE_TO_APP_DATA:
             goto encodeResponse;
         }
 
+        /* The keys change between two handshake messages, never inside one:
+           a message whose first part is waiting in the (non-DTLS) record
+           reassembly buffer would otherwise be completed under the new keys
+           and pass for a message that was sent after the ChangeCipherSpec */
+        if (!ACTV_VER(ssl, v_dtls_any) && ssl->fragMessage != NULL)
+        {
+            ssl->err = SSL_ALERT_UNEXPECTED_MESSAGE;
+            psTraceErrr("ChangeCipherSpec inside a handshake message\n");
+            goto encodeResponse;
+        }
+
 #ifdef USE_DTLS
         if (ACTV_VER(ssl, v_dtls_any))
         {
